@@ -488,6 +488,7 @@ def run(ck, F):
         sub = C04._Sub(ck, "R2", lambda key: True, only_rules=("R1",))
         C11.run(sub, F)
     rule_copy_fanout(ck, F)
+    rule_runtime_format_counts(ck, F)
     # ---- R4 loops
     n_loops = 0
     for b in scans.bodies(F.lib):
@@ -528,6 +529,28 @@ def run(ck, F):
         ck.ok("R4", "endless-iterator:positive-control", "engine/controls/src/lib.rs", f"controls: {sorted(cverd.items())}")
     else:
         ck.undecided("R4", "endless-iterator:positive-control", "engine/controls/src/lib.rs", f"the scan for endless iterators reports {sorted(cverd.items())} on the controls")
+
+
+def rule_runtime_format_counts(ck, F):
+    """(R1) a width / precision taken from a run-time value is a panic site of the formatting machinery (above 65535): it is a
+    constant, or cut at one, wherever the library formats with one"""
+    from engine.rulekit import facts as factsmod
+    hits = [h for h in scans.scan_runtime_format_counts(F.lib, in_scope) if "tests::" not in h[0]]
+    for (fn, site, verdict) in hits:
+        short = fn.rsplit("::", 1)[-1]
+        if verdict.startswith("unbounded"):
+            ck.violation("R1", f"format-count:{short}", site,
+                         f"{fn} formats with a width / precision computed at run time ({verdict[11:]}): `core::fmt` panics with \"Formatting argument out "
+                         f"of range\" when it is above 65535 — a value of that length in the input aborts the generation", fn=fn)
+        else:
+            ck.ok("R1", f"format-count:{short}", site, f"run-time width / precision is {verdict}", fn=fn)
+    if not hits:
+        ck.ok("R1", "format-count:none", "-", "the library formats with no width / precision computed at run time")
+    cv = {h[0].split("::{closure", 1)[0]: h[2].split(":")[0] for h in scans.scan_runtime_format_counts(factsmod.controls())}
+    if cv.get("c13_width_follows_data") == "unbounded" and cv.get("c13_width_cut") == "bounded":
+        ck.ok("R1", "format-count:positive-control", "engine/controls/src/lib.rs", f"controls: {sorted(cv.items())}")
+    else:
+        ck.undecided("R1", "format-count:positive-control", "engine/controls/src/lib.rs", f"the scan for run-time format counts reports {sorted(cv.items())} on the controls")
 
 
 def rule_copy_fanout(ck, F):
